@@ -5,6 +5,7 @@ import (
 	"math"
 	"strconv"
 	"strings"
+	"unicode/utf8"
 
 	"github.com/rulego/streamsql/functions"
 	"github.com/rulego/streamsql/utils/fieldpath"
@@ -526,12 +527,18 @@ func matchLikePattern(text, pattern string) bool {
 			starIdx = pi
 			matchIdx = ti
 			pi++
-		} else if pi < len(pattern) && (pattern[pi] == '_' || pattern[pi] == text[ti]) {
+		} else if pi < len(pattern) && pattern[pi] == '_' {
+			// '_' stands for one character, which may span several bytes
+			_, size := utf8.DecodeRuneInString(text[ti:])
+			ti += size
+			pi++
+		} else if pi < len(pattern) && pattern[pi] == text[ti] {
 			ti++
 			pi++
 		} else if starIdx != -1 {
 			pi = starIdx + 1
-			matchIdx++
+			_, size := utf8.DecodeRuneInString(text[matchIdx:])
+			matchIdx += size
 			ti = matchIdx
 		} else {
 			return false
